@@ -204,6 +204,14 @@ Proof.
   - right. rewrite Forall_forall in Hloc. apply Hloc. exact Hu.
 Qed.
 
+Lemma size_is_max_plus_one i : wf i -> i_size i = N.succ (last_nr 0 (xents i)).
+Proof.
+  intros W. pose proof (wf_table i W) as H. unfold table_ok in H.
+  destruct (xents i) as [|h r]; [discriminate|].
+  apply andb_true_iff in H. destruct H as [H _]. apply andb_true_iff in H. destruct H as [_ H].
+  apply N.eqb_eq in H. rewrite H, N.max_0_r. reflexivity.
+Qed.
+
 (* ------------------------------------------------------------------ what acceptance means *)
 
 Theorem check_file_sound f : check_file f = true ->
